@@ -97,6 +97,9 @@ class Report:
                 for k in ("obligations", "queries", "unsat", "sat", "unknown", "solver_s"):
                     sec[k] += st.get(k, 0)
                 for k, v in st.items():
+                    if k == "slowest_query_s":
+                        self.stats[k] = max(self.stats.get(k, 0), v)
+                        continue
                     self.stats[k] = self.stats.get(k, 0) + v
                 self.status_counts[rec["status"]] = self.status_counts.get(rec["status"], 0) + 1
                 for c in rec.get("cuts", []):
@@ -217,7 +220,7 @@ class Report:
                 exhaustive=not self.harness_errors and not self.unknowns,
                 paths=self.paths, jobs=self.jobs, equality_regimes=self.regimes, obligations=self.stats.get("obligations", 0),
                 solver_queries=self.stats.get("queries", 0), unsat=self.stats.get("unsat", 0), sat=self.stats.get("sat", 0),
-                unknown=self.stats.get("unknown", 0), solver_seconds=round(self.stats.get("solver_s", 0.0), 2),
+                unknown=self.stats.get("unknown", 0), solver_seconds=round(self.stats.get("solver_s", 0.0), 2), slowest_query_seconds=self.stats.get("slowest_query_s", 0),
                 discharged_by=dict(normal_form=self.stats.get("stage1", 0), identity_query=self.stats.get("stage2", 0), with_path_condition=self.stats.get("stage3", 0)),
                 feasibility_queries=self.stats.get("feas_queries", 0), control_forks=self.stats.get("ctrl_forks", 0), data_forks=self.stats.get("data_forks", 0),
                 cut_data_conditions=sorted(self.cuts)[:20], path_status=self.status_counts, sections=self.sections,
